@@ -291,14 +291,16 @@ def check_generated(case):
     if transform in ("difference", "ratio"):
         kw["method"] = method
     vals, ref_err = [], None
+    xkw = dict(case.get("extra_kw") or {})  # further (non-sample) keyword arguments, forwarded to the base metric
+    kw.update(xkw)
     with warnings.catch_warnings():
         warnings.simplefilter("ignore")
         try:
             for k, m in masks.items():
                 a = {"sample_weight": wv[m]} if weighted else {}
-                vals.append(float(bf(yt[m], yp[m], **a)))
+                vals.append(float(bf(yt[m], yp[m], **a, **xkw)))
             a = {"sample_weight": wv} if weighted else {}
-            overall = float(bf(yt, yp, **a))
+            overall = float(bf(yt, yp, **a, **xkw))
         except Exception as e:  # noqa: BLE001  the base metric is undefined on some group
             ref_err = e
         try:
@@ -344,15 +346,35 @@ def check_generated(case):
         tags.add("nt")
     if weighted:
         tags.add("weighted")
+    if xkw:
+        tags.add("extra_keyword")
+    if any(not v for v in xkw.values()):
+        tags.add("falsy_extra_keyword")
     return sorted(tags)
+
+
+EXTRA_KW = {
+    "accuracy_score": [{"normalize": False}, {"normalize": True}],
+    "zero_one_loss": [{"normalize": False}],
+    "precision_score": [{"pos_label": 0}, {"zero_division": 0}, {"zero_division": 1}, {"pos_label": 0, "zero_division": 1}],
+    "recall_score": [{"pos_label": 0}, {"zero_division": 1}],
+    "f1_score": [{"pos_label": 0}, {"zero_division": 1}],
+    "balanced_accuracy_score": [{"adjusted": True}, {"adjusted": False}],
+    "true_negative_rate": [{"pos_label": 0}, {"pos_label": 1}],
+    "false_negative_rate": [{"pos_label": 0}],
+    "mean_squared_error": [{"multioutput": "uniform_average"}],
+    "log_loss": [{"normalize": False}],
+}
 
 
 # ---- make_derived_metric -----------------------------------------------------------------------------
 
 
-def m_scaled(y_true, y_pred, sample_weight=None, scale=1.0, shift=0.0):
+def m_scaled(y_true, y_pred, sample_weight=None, scale=1.0, shift=0.0, normalize=True):
     yp = np.asarray(y_pred, dtype=float)
     w = np.ones(len(yp)) if sample_weight is None else np.asarray(sample_weight, dtype=float)
+    if not normalize:
+        return float(scale * np.sum(w * yp) + shift)
     return float(scale * np.sum(w * yp) / np.sum(w) + shift)
 
 
@@ -439,6 +461,8 @@ def check_derived(case):
         tags.add("nt")
     if bound:
         tags.add("bound_params")
+    if any(not v for v in bound.values()):
+        tags.add("falsy_bound_param")
     if weighted:
         tags.add("weighted")
     if which == "extra" and extra is not None:
@@ -492,6 +516,8 @@ def _generated_case(draw):
     c = draw(_dataset())
     c["coding"] = "01"  # the sklearn-derived references below work on the 0/1 values
     c["fn"] = list(draw(st.sampled_from(SK_GENERATED)))
+    if c["fn"][0] in EXTRA_KW and draw(st.booleans()):
+        c["extra_kw"] = draw(st.sampled_from(EXTRA_KW[c["fn"][0]]))
     c["method"] = draw(st.sampled_from(["between_groups", "to_overall"]))
     c["prior_call"] = draw(st.booleans())
     c["use_default"] = draw(st.booleans())
@@ -508,9 +534,11 @@ def _derived_case(draw):
     c["method"] = draw(st.sampled_from(["between_groups", "to_overall"]))
     bound = {}
     if draw(st.booleans()):
-        bound["scale"] = draw(st.sampled_from([2.0, 0.5, 3.0]))
+        bound["scale"] = draw(st.sampled_from([2.0, 0.5, 3.0, 0.0, -1.0]))
     if c["metric"] == "scaled" and draw(st.booleans()):
-        bound["shift"] = draw(st.sampled_from([1.0, 0.25]))
+        bound["shift"] = draw(st.sampled_from([1.0, 0.25, 0.0, -0.5]))
+    if c["metric"] == "scaled" and draw(st.integers(0, 3)) == 0:
+        bound["normalize"] = draw(st.booleans())  # explicit False / 0 / 0.0 are values, not "unset"
     c["bound"] = bound
     if c["metric"] == "extra":
         c["extra"] = draw(st.one_of(st.none(), st.lists(st.integers(0, 3).map(float), min_size=n, max_size=n)))
